@@ -532,7 +532,12 @@ class Inliner:
             # everything else in the statement must be free of calls (so that the evaluation order cannot matter),
             # and the call must not sit inside a comprehension / lambda / conditional sub-expression
             ok = True
+            # the outermost call of the statement runs after its arguments: a candidate that is one of its arguments
+            # can be evaluated first when the callee expression itself is call-free
+            outer_ok = isinstance(holder, ast.Call) and (any(a is c for a in holder.args) or any(k.value is c for k in holder.keywords)) and not any(isinstance(x, ast.Call) for x in ast.walk(holder.func))
             for n in ast.walk(holder):
+                if n is holder and outer_ok:
+                    continue
                 if isinstance(n, ast.Call) and n is not c and not any(x is n for x in ast.walk(c)):
                     if not (isinstance(n.func, ast.Name) and n.func.id in ("len", "list", "tuple", "dict", "set", "str", "int", "float", "bool", "sorted", "enumerate", "zip")):
                         ok = False
@@ -764,6 +769,51 @@ def destructure_namedtuples(prog: Program) -> List[Tuple[str, str]]:
             set_parents(f.node)
             nodes = list(own_nodes(f.node))
             out.append((q, name))
+    # callee side: when no caller holds the result object any more, the constructor call in the returns is the tuple
+    # of its fields (the spelling of tuple-returning code)
+    holders: Dict[str, int] = {}
+    producers: Dict[str, List[str]] = {}
+    for q, f in prog.functions.items():
+        if not q.startswith(prog.package + ".") or not isinstance(f.node, ast.FunctionDef):
+            continue
+        fl = result_fields(f)
+        if fl:
+            producers[q] = fl
+    if producers:
+        for q, f in prog.functions.items():
+            if not q.startswith(prog.package + "."):
+                continue
+            for n in own_nodes(f.node):
+                if isinstance(n, ast.Call):
+                    par = getattr(n, "_parent", None)
+                    unpack = isinstance(par, ast.Assign) and par.value is n and len(par.targets) == 1 and isinstance(par.targets[0], (ast.Tuple, ast.List))
+                    if unpack:
+                        continue
+                    tgt = res.resolve_callee(n, f)
+                    if tgt and tgt[0] == "func" and tgt[1] in producers:
+                        holders[tgt[1]] = holders.get(tgt[1], 0) + 1
+        for q, fields in producers.items():
+            if holders.get(q):
+                continue
+            g = prog.functions[q]
+            done = False
+            for r in [x for x in own_nodes(g.node) if isinstance(x, ast.Return) and isinstance(x.value, ast.Call)]:
+                c = r.value
+                vals = {}
+                for i, a in enumerate(c.args):
+                    if i < len(fields) and not isinstance(a, ast.Starred):
+                        vals[fields[i]] = a
+                for k in c.keywords:
+                    if k.arg in fields:
+                        vals[k.arg] = k.value
+                if set(vals) != set(fields):
+                    continue
+                r.value = ast.copy_location(ast.Tuple(elts=[vals[x] for x in fields], ctx=ast.Load()), c)
+                done = True
+            if done:
+                ast.fix_missing_locations(g.node)
+                set_parents(g.node)
+                out.append((q, "<returns>"))
     return out
 
 
